@@ -887,6 +887,10 @@ const fn next_multiple_of_usize(lhs: usize, rhs: usize) -> usize {
     }
 }
 
+#[cfg(pendulum_project_ntpd_rs_verif)]
+#[path = "/verif/hooks/ntp_proto/extension_fields_probe.rs"]
+mod verif_probe;
+
 #[cfg(test)]
 mod tests {
     use crate::{keyset::KeySet, packet::AesSivCmac256};
